@@ -36,6 +36,8 @@ pub fn part_c01(tier: Tier) -> Part {
         restart: false,
         failing: false,
         remove_by_num: true,
+        bp_only_before_start: false,
+        continue_after_start: true,
         wall: wall_cap(tier, 50, 2400),
     };
     explore_all(tier, &cfg, 3, &mut part);
@@ -52,13 +54,64 @@ pub fn part_c02(tier: Tier) -> Part {
         restart: true,
         failing: true,
         remove_by_num: false,
+        bp_only_before_start: false,
+        continue_after_start: true,
         wall: wall_cap(tier, 50, 2400),
     };
     explore_all(tier, &cfg, 2, &mut part);
     part
 }
 
+pub fn part_c03(tier: Tier) -> Part {
+    let mut part = Part::new("e2e-step-semantics");
+    let cfg = ExploreCfg {
+        prop: "C03",
+        depth: if tier == Tier::Quick { 5 } else { 7 },
+        oracles: oracles_for("C03"),
+        steps: true,
+        restart: false,
+        failing: false,
+        remove_by_num: false,
+        bp_only_before_start: true,
+        continue_after_start: true,
+        wall: wall_cap(tier, 50, 3000),
+    };
+    explore_all_with(tier, &cfg, &mut part, |p| {
+        // main (so that stepping starts at the top), plus a statement inside the stepped ranges
+        let mut c = vec![Cand::Fn("main".into())];
+        c.extend(candidates(p, 4).into_iter().filter(|c| matches!(c, Cand::Line(_))).take(1));
+        c
+    });
+    part
+}
+
+pub fn part_c05(tier: Tier) -> Part {
+    let mut part = Part::new("e2e-backtrace");
+    let cfg = ExploreCfg {
+        prop: "C05",
+        depth: if tier == Tier::Quick { 4 } else { 6 },
+        oracles: oracles_for("C05"),
+        steps: true,
+        restart: false,
+        failing: false,
+        remove_by_num: false,
+        bp_only_before_start: true,
+        continue_after_start: true,
+        wall: wall_cap(tier, 50, 3000),
+    };
+    explore_all_with(tier, &cfg, &mut part, |p| candidates(p, 4).into_iter().filter(|c| !matches!(c, Cand::Line(_))).take(2).collect());
+    part
+}
+
 fn explore_all(tier: Tier, cfg: &ExploreCfg, n_cands: usize, part: &mut Part) {
+    explore_all_with(tier, cfg, part, |p| candidates(p, n_cands));
+    let e = part.bounds["candidates_per_program"].take();
+    let _ = e;
+    part.bounds["candidates_per_program"] = json!(n_cands);
+}
+
+fn explore_all_with(tier: Tier, cfg: &ExploreCfg, part: &mut Part, pick: impl Fn(&Prog) -> Vec<Cand>) {
+    let n_cands = 0;
     let progs = match corpus_for(tier) {
         Ok(p) => p,
         Err(e) => {
@@ -77,7 +130,7 @@ fn explore_all(tier: Tier, cfg: &ExploreCfg, n_cands: usize, part: &mut Part) {
     part.rule = "explicit-state BFS over command histories of the real Debugger, one worker process per history; canonical state = (started, exited, reference-trace index located from PTRACE_GETREGS + stack/data hash, enabled candidate set, observed text diff vs ELF, debugger's breakpoint list); every action of the alphabet is executed from every distinct state up to the depth bound; oracle = reference single-step trace of the same binary (independent tracer). Non-trivial = state with a located trace index or a breakpoint set".into();
     let deadline = Instant::now() + cfg.wall;
     for p in &progs {
-        let cands = candidates(p, n_cands);
+        let cands = pick(p);
         if cands.is_empty() {
             continue;
         }
